@@ -26,7 +26,7 @@ from ..worlds import words as WW
 from comb_spec_searcher.rule_db import RuleDB, RuleDBForgetStrategy
 
 ID = "C14"
-QUICK_RUNS = 1600
+QUICK_RUNS = 5000
 CHUNK = 20
 THOROUGH_BUDGET_S = 900
 WATCHDOG = 45.0
